@@ -63,6 +63,14 @@ def _m_count(sig):
     return np.cumsum(v > 0.5 * np.max(v))
 
 
+def _m_wiggle(sig):
+    """user lambda 3: a cumulative measure that is NOT monotone - running sum of |a| with twice the current sample
+    taken back (like a cumulative input energy, it rises overall but dips locally).  The statement's definition (first and
+    last sample strictly between the fractions) does not need monotonicity, and neither does the library's mask."""
+    v = np.abs(np.asarray(sig.values, dtype=float))
+    return np.cumsum(v) - 2.0 * v
+
+
 # name -> (type, callable passed as `im`)   type: 'rect' = running sum, 'trap' = running trapezoid
 MEASURES = {
     "arias": ("trap", None),
@@ -73,9 +81,10 @@ MEASURES = {
     "isv": ("trap", im.calc_isv),
     "cube": ("rect", _m_cube),
     "count": ("rect", _m_count),
+    "wiggle": ("rect", _m_wiggle),
 }
 ARRAY_LEVEL = ("sumsq", "deprecated")
-ALL_MEASURES = ["arias", "arias", "sumsq", "sumsq", "deprecated", "cav", "absacc", "isv", "cube", "count", "count"]
+ALL_MEASURES = ["arias", "arias", "sumsq", "sumsq", "deprecated", "cav", "absacc", "isv", "cube", "count", "count", "wiggle", "wiggle"]
 
 
 def _seen(spec, z0=False):
@@ -110,6 +119,8 @@ def _levels_float(a, measure):
     elif measure == "isv":
         v = _trap(a)
         c = _trap(v * v)
+    elif measure == "wiggle":
+        c = np.cumsum(ab) - 2.0 * ab
     else:
         raise ValueError(measure)
     total = c[-1]
